@@ -39,7 +39,7 @@ CFG = {
     "stages": ["go:gen", "go:impl", "lean:judge"],
     "pregen": pregen,
     "theorems": [T + n for n in ["bellmanFord_correct", "pickMin_spec", "astar_optimal", "consistent_zero", "heuristic_consistent",
-                                 "polyLen_ge_chord", "euclidR_tri", "C19_route", "C19_unreachable", "build_wf", "C19_built"]],
+                                 "polyLen_ge_chord", "euclidR_tri", "C19_route", "C19_unreachable", "build_wf", "C19_built", "C19_history"]],
     "trusted_base": [
         "Lean 4.33.0 kernel; axioms of every theorem printed by #print axioms must be within {propext, Classical.choice, Quot.sound}",
         "model lean/GeomV/C19/Model.lean is tied to /repo/route/route.go and to gonum v0.9.3 graph/path.AStar by the correspondence run on every check "
@@ -55,7 +55,10 @@ CFG = {
         "finite positive speeds, finite coordinates; query points with a unique nearest node (generators keep away from ties)",
         "IEEE rounding is not modelled: exact comparison on integer/axis-aligned/power-of-two data, 1e-9 relative otherwise",
     ],
-    "rule": "networks of 1-60 nodes built by AddLink sequences in shuffled order and random link orientation, no self-loops/parallel links: "
+    "rule": "each case is a HISTORY of AddLink and ShortestRoute calls on ONE Network (queries asked again after further links: joining links, "
+            "shortcuts, faster links), every answer judged against the verified Bellman-Ford optimum and the brute-force nearest nodes of the network "
+            "as it was at that moment; networks of 1-60 nodes plus 60-400-node road/town networks (several R-tree leaves, scales 1 and 1/128) with "
+            "query points tens to thousands of units from every node; shuffled link order and random link orientation, no self-loops/parallel links: "
             "hand corpus (route tests, DESIGN 6-link case, fast-long vs slow-short, components), grids with random deletions/detoured links/long chords, "
             "chains of diamonds whose one-link side is the most expensive, motorway-vs-slow-direct with a very slow spur (time option), 2-3 components, "
             "random float networks with bent links and speeds over 3 decades, end points perturbed on both sides of the 1e-9 identification threshold; "
